@@ -311,7 +311,8 @@ def evaluate(chk, db, vals, base, what, arg, reply=None, rel=False):
         except Exception as e:
             byind = err_enum(e)
         if byind != im:
-            chk.fail("the listing order is the registration order (the order addressed by index)", inp, byind, im, clause="all-ordered")
+            chk.fail("listing without a pattern and retrieval of all series by index agree (both in registration order)", inp, im, byind,
+                     clause="all-ordered")
         retrieval(chk, db, vals, keys, inp, None, im)
     elif what in ("list", "listn"):
         im = db.list(names=arg, display=False, relative=rel)
